@@ -9,7 +9,7 @@
    [wbound B] = domain hypothesis of hwloc_distrib: finite cpusets, sibling weights sum
                 to at most B, with B * (n + 1) <= 2^32 (C unsigned arithmetic does not wrap). *)
 From Coq Require Import List NArith ZArith Bool Lia.
-From HV Require Import Base.BSet Gen.Tables Topo.Dump Topo.Obj Topo.Helpers Topo.Distrib Topo.HelpersProofs Topo.DistribProofs.
+From HV Require Import Base.BSet Gen.Tables Text.TypeOrder Topo.Dump Topo.Obj Topo.Helpers Topo.Distrib Topo.HelpersProofs Topo.DistribProofs.
 Import ListNotations.
 Local Open Scope N_scope.
 
@@ -203,8 +203,6 @@ Theorem distrib_literal_shallow_until :
 Proof. exists ex_roots, 2, 1%Z. vm_compute. auto. Qed.
 Print Assumptions distrib_literal_shallow_until.
 
-(* ---------- statements that are false on the faithful model (findings, replayed on the C code by checks/c09.py) ---------- *)
-
 (* a three-object dump: Machine 0 { PU 1 ; NUMA node 2 (memory child, depth -3) } *)
 Definition ex_dump3 : dump :=
   let m := mkd 0 HWLOC_OBJ_MACHINE 0 0 1 0 1 in
@@ -213,6 +211,62 @@ Definition ex_dump3 : dump :=
   let numa := mkDobj 2 HWLOC_OBJ_NUMANODE HWLOC_TYPE_DEPTH_NUMANODE 0 None (PId 0) PNull PNull PNull PNull PNull PNull 0 0 0 0 0 0 None [] [] [] []
                    (Some (bs_of_N 1)) (Some (bs_of_N 1)) None None 0 0 (-1) (-1) (-1) (-1) (-1) (-1) (-1) in
   mkDump 0 2 3 [] None None [] [] [m; pu; numa].
+
+(* ---------- hwloc_get_common_ancestor_obj ---------- *)
+
+(* for ALL dumps with consistent parent pointers and ALL pairs of objects of
+   non-negative depth (normal objects): the alternating climb terminates (the
+   fuel of the model, depth a + depth b + 1 + nobj, is never exhausted), never
+   reads a NULL parent, and returns the deepest common ancestor: an
+   ancestor-or-self of both of which every common ancestor-or-self is an
+   ancestor-or-self.  (The statement for all objects is false:
+   common_ancestor_total_refuted below.) *)
+Theorem common_ancestor_deepest_partial : forall d a b,
+  parents_ok d -> In a (t_objs d) -> In b (t_objs d) -> (0 <= o_depth a)%Z -> (0 <= o_depth b)%Z ->
+  exists r, get_common_ancestor_obj d a b = CA_obj (o_id r) /\ anc d r a /\ anc d r b /\
+            forall x, anc d x a -> anc d x b -> anc d x r.
+Proof.
+  intros d a b P Ha Hb Da Db. unfold get_common_ancestor_obj, ca_fuel.
+  apply common_ancestor_deepest_l; auto. rewrite !Z.abs_eq by assumption. lia.
+Qed.
+Print Assumptions common_ancestor_deepest_partial.
+
+Example ex_parents_ok : parents_ok ex_dump3 /\
+  (exists a b, get ex_dump3 1 = Some a /\ get ex_dump3 0 = Some b /\ get_common_ancestor_obj ex_dump3 a b = CA_obj 0).
+Proof.
+  split.
+  - constructor.
+    + intros o H. cbn in H. destruct H as [<- | [<- | [<- | []]]]; reflexivity.
+    + intros o p H D E. cbn in H. destruct H as [<- | [<- | [<- | []]]].
+      * cbn in E. discriminate.
+      * cbn in E. inversion E; subst. split; [now left|cbn; lia].
+      * exfalso. revert D. unfold HWLOC_TYPE_DEPTH_NUMANODE. cbn. lia.
+    + intros o H D. cbn in H. destruct H as [<- | [<- | [<- | []]]].
+      * cbn in D. lia.
+      * cbn. discriminate.
+      * exfalso. revert D. unfold HWLOC_TYPE_DEPTH_NUMANODE. cbn. lia.
+    + intros o o' H H' D D'. cbn in H, H'.
+      destruct H as [<- | [<- | [<- | []]]]; destruct H' as [<- | [<- | [<- | []]]]; try reflexivity;
+      exfalso; revert D D'; unfold HWLOC_TYPE_DEPTH_NUMANODE; cbn; lia.
+  - eexists. eexists. split; [reflexivity|]. split; [reflexivity|]. vm_compute. reflexivity.
+Qed.
+
+(* ---------- hwloc_get_obj_with_same_locality (normal / memory types) ---------- *)
+
+Theorem same_locality_sound_complete : forall d src ty,
+  is_normal (o_type src) || is_memory (o_type src) = true -> is_normal ty || is_memory ty = true ->
+  match get_obj_with_same_locality d src ty with
+  | (Some o, e) => e = E_OK /\ In o (level_objs d (get_type_depth d (Z.of_N ty))) /\
+                   opt_bs_eqb (o_cs src) (o_cs o) = true /\ opt_bs_eqb (o_nds src) (o_nds o) = true
+  | (None, e) => e = E_NOENT /\
+                 (get_type_depth d (Z.of_N ty) = HWLOC_TYPE_DEPTH_UNKNOWN \/ get_type_depth d (Z.of_N ty) = HWLOC_TYPE_DEPTH_MULTIPLE \/
+                  forall o, In o (level_objs d (get_type_depth d (Z.of_N ty))) ->
+                            opt_bs_eqb (o_cs src) (o_cs o) && opt_bs_eqb (o_nds src) (o_nds o) = false)
+  end.
+Proof. exact same_locality_sound_complete_l. Qed.
+Print Assumptions same_locality_sound_complete.
+
+(* ---------- statements that are false on the faithful model (findings, replayed on the C code by checks/c09.py) ---------- *)
 
 (* "hwloc_get_common_ancestor_obj cannot return NULL" / is total: refuted.  With
    a memory object (depth -3) and a PU the PU side climbs past the root and
